@@ -211,6 +211,15 @@ func c10Cam(size string) vcam {
 var cleanupOps int // operations of the last (possibly interrupted) clean-up
 
 func runC10(c c10Case) (vs []ev.Violation, nops int) {
+	defer func() {
+		if p := recover(); p != nil {
+			vs = append(vs, ev.Violation{Sig: "C10:panic-in-code-under-test", Msg: crashMsg(p), Case: c})
+		}
+	}()
+	return runC100(c)
+}
+
+func runC100(c c10Case) (vs []ev.Violation, nops int) {
 	dir, err := os.MkdirTemp("", "c10-")
 	if err != nil {
 		panic(err)
